@@ -23,7 +23,7 @@ DEV_ASSUMPTION = (
     "in-memory block devices ArrW/ArrR/CurW (harness/common.rs) stand for RollingWriter/RollingReader: "
     "zero-prefilled, next_block never fails, a single stream without file boundaries")
 
-HOOK_COMMITS = ["51e6703"]
+HOOK_COMMITS = ["51e6703", "9b45c9b"]
 
 NA_GLUE = ("the deciding mechanism lives in MultiRecordLog / RollingReader / RollingWriter / Directory over std::fs, std::path, "
            "core::fmt and HashMap; symbolic execution of those std bodies does not terminate under CBMC in this sandbox "
@@ -37,7 +37,6 @@ NOT_APPLICABLE = {
     "C11": "the failing retry loop is the `let Ok(..) else continue` of open_with_prefs, which cannot be executed without RollingReader: " + NA_GLUE,
     "C13": "'nothing was written and the outcome says 0' is a statement about MultiRecordLog::{create_queue,delete_queue,append_records,truncate} and the writer's I/O: " + NA_GLUE,
     "C14": "lock-step runs of MultiRecordLog under different policies (and Instant::now): " + NA_GLUE,
-    "C18": "isolation is delivered by the HashMap<String, MemQueue> lookups and by the GC glue: " + NA_GLUE,
 }
 
 CHECKS = {
@@ -90,15 +89,19 @@ CHECKS = {
                        "{append at next / next+1 / next+2 / next-1 (must be rejected), truncate beyond / far beyond / at last / at first} "
                        "is executed on the compiled code and compared step by step with a reference whose next position is "
                        "max(next, t+1) -- i.e. never regresses and is never reused, also after the queue was emptied. Only the "
-                       "in-memory half of the property: survival across GC / restart / crash is MultiRecordLog glue and not claimed."),
+                       "in-memory half of the property. MemQueues::ack_position -- what replay does with a RecordPosition entry or the first "
+                       "surviving append -- is checked on the real MemQueues (map stand-in): afterwards the queue exists, is empty and continues "
+                       "at exactly the recorded position, whatever state it was in. That GC writes those entries before unlinking, and the replay "
+                       "loop itself, are MultiRecordLog glue and not claimed."),
         "level_note": "trusted: kani-compiler, CBMC, CaDiCaL, the 40-line reference queue in harness/mem.rs; positions are concrete values near 0, 5 and 2^62-16 (a symbolic truncation point exceeds 28 GB, DESIGN B16)",
         "filters": ["c04_"],
-        "quick": {"harnesses": [("real", "c04_pos*_q*")], "jobs": 14, "timeout": 900},
-        "thorough": {"harnesses": [("real", "c04_pos*_q*"), ("real", "c04_pos*_t*")], "jobs": 16, "timeout": 2400},
+        "quick": {"harnesses": [("real", "c04_pos*_q*"), ("real", "c04_ack*_q*")], "jobs": 14, "timeout": 900},
+        "thorough": {"harnesses": [("real", "c04_pos*_q*"), ("real", "c04_pos*_t*"), ("real", "c04_ack*")], "jobs": 16, "timeout": 2400},
         "rule": ("case = one operation script (base-N digits over the alphabet, see harness/mem.rs mem_scripts) run on the real "
                  "MemQueue and on the reference in lock step, assertions after every step; non-trivial = at least two accepted "
                  "appends; counts are read from CBMC's symex log (mark_case / mark_nontrivial)"),
-        "samples": ["c04_pos_q_007: scripts 84..95 of 7^3 over [A(next), A(next+2), A(next-1), T(next), T(next+3), T(last), T(first)], base position 5"],
+        "samples": ["c04_pos_q_007: scripts 84..95 of 7^3 over [A(next), A(next+2), A(next-1), T(next), T(next+3), T(last), T(first)], base position 5",
+                    "c04_ack_q_005: scripts 40..47 of 8^2 over [create, append, append+2, truncate future, ack_position(next+5), ack_position(0), delete, append b] on MemQueues"],
         "functions": ["mem::queue::MemQueue::{with_next_position,default,append_record,truncate_head,next_position,last_position,position_to_idx}",
                       "mem::rolling_buffer::RollingBuffer::{new,extend,truncate_head,clear,len}"],
         "bounds": {"quick": {"script_length": 3, "alphabet": 7, "bases": "5 (K=3); 0 and 2^62-16 (K=2)", "payload": "1 byte"},
@@ -113,11 +116,12 @@ CHECKS = {
                        "VecDeque): after every step of every script the truncate count, next/last position, last_record and range(..) "
                        "are compared with a sequential reference, byte for byte with symbolic payload bytes; range() additionally with "
                        "symbolic bounds of every RangeBounds shape; a ring-wrap scenario covers all three branches of get_range. "
-                       "create/delete/exists/list and append_records' position_opt handling are MultiRecordLog/HashMap glue and not claimed."),
+                       "create/delete/exists/list are checked on the real MemQueues over a map stand-in (c18_iso_q_*: created-and-not-deleted names, "
+                       "AlreadyExists, per-queue records); append_records' position_opt handling is MultiRecordLog glue and not claimed."),
         "level_note": "trusted: kani-compiler, CBMC, CaDiCaL, the reference queue in harness/mem.rs; <= 4 retained records, payloads <= 3 bytes, concrete positions",
-        "filters": ["c05_"],
-        "quick": {"harnesses": [("real", "c05_obs*_q*"), ("real", "c05_ring_wrap_q"), ("real", "c05_big_q*"), ("real", "c05_range_sym_q*")], "jobs": 14, "timeout": 900},
-        "thorough": {"harnesses": [("real", "c05_obs*"), ("real", "c05_ring_wrap_q"), ("real", "c05_big_q*"), ("real", "c05_range_sym_*")], "jobs": 16, "timeout": 2400},
+        "filters": ["c05_", "c18_iso_q"],
+        "quick": {"harnesses": [("real", "c05_obs*_q*"), ("real", "c05_ring_wrap_q"), ("real", "c05_big_q*"), ("real", "c05_range_sym_q*"), ("real", "c18_iso_q_0*")], "jobs": 14, "timeout": 900},
+        "thorough": {"harnesses": [("real", "c05_obs*"), ("real", "c05_ring_wrap_q"), ("real", "c05_big_q*"), ("real", "c05_range_sym_*"), ("real", "c18_iso_q_0*")], "jobs": 16, "timeout": 2400},
         "rule": ("case = one operation script (appends of 0..3 symbolic bytes at next / +1 / +2 / rejected position, truncations at 8 "
                  "relative targets) or one symbolic-bounds range query on a constructed state; lock step with the reference; "
                  "non-trivial = at least two accepted appends; counted from CBMC's symex log"),
@@ -159,11 +163,12 @@ CHECKS = {
         "technique": "bounded model checking of the compiled Rust (Kani/CBMC): exhaustive op scripts, size()/capacity() against the reference's retained bytes",
         "level_text": ("Bounded model checking of MemQueue::size/capacity: after every step size() == retained payload bytes + "
                        "n * (per-record constant, measured through the API), size() <= capacity(), and an emptied queue accounts 0. "
-                       "Queue-name bytes and the sum over queues (MemQueues::size over the HashMap) are not claimed."),
+                       "MemQueues::size (c18_iso_q_*): used == queue-name BYTES (one name holds a 2-byte character) + payload + n * constant, summed over the queues "
+                       "(map stand-in for the HashMap). resource_usage() of MultiRecordLog is glue and not claimed."),
         "level_note": "trusted: kani-compiler, CBMC, CaDiCaL, reference queue; per-record constant obtained from a one-record queue",
-        "filters": ["c16_"],
-        "quick": {"harnesses": [("real", "c16_size_q*"), ("real", "c16_big_q*")], "jobs": 14, "timeout": 900},
-        "thorough": {"harnesses": [("real", "c16_size*"), ("real", "c16_big_*")], "jobs": 16, "timeout": 2400},
+        "filters": ["c16_", "c18_iso_q"],
+        "quick": {"harnesses": [("real", "c16_size_q*"), ("real", "c16_big_q*"), ("real", "c18_iso_q_00*")], "jobs": 14, "timeout": 900},
+        "thorough": {"harnesses": [("real", "c16_size*"), ("real", "c16_big_*"), ("real", "c18_iso_q_0*")], "jobs": 16, "timeout": 2400},
         "rule": "case = one script over appends of 0/2/3 (thorough 0..3) bytes and truncations at first / middle / far future; size and capacity compared after each step",
         "samples": ["c16_size_q_010: scripts 90..98 of 6^3", "c16_big_q_1_16: payloads of 1 and 16 symbolic bytes, truncated one by one (evicting < 1/8 of the buffer)"],
         "functions": ["mem::queue::MemQueue::{size,capacity,append_record,truncate_head}", "mem::rolling_buffer::RollingBuffer::{len,capacity,truncate_head,clear,extend}"],
@@ -222,12 +227,13 @@ CHECKS = {
                        "loop delivers exactly the other entries, intact and in order, reports exactly one corruption and terminates. "
                        "The checksum oracle these cases rest on is backed by the real-CRC harnesses (c08_crc_*: what write_frame stores and read_frame "
                        "accepts is CRC-32(type ++ payload), no stub), which this check also runs. "
-                       "That replay tolerates the missing entry at the queue level (gaps, re-created queues) is MultiRecordLog/MemQueues glue and not claimed."),
+                       "Queue-level tolerance of a lost entry: MemQueue accepts gaps (C04/C05 scripts) and MemQueues::ack_position re-creates or resets a "
+                       "stale queue from a later position record (c04_ack_*, real MemQueues over a map stand-in); the replay loop that calls them is glue and not claimed."),
         "level_note": "trusted: kani-compiler, CBMC, CaDiCaL; ideal-checksum oracle (a damaged frame fails its check; CRC collisions excluded); ArrW/ArrR devices; cases where the reader's cursor would fork are cut one call after the failure (DESIGN B18)",
-        "filters": ["c09_", "c08_crc_"],
+        "filters": ["c09_", "c08_crc_", "c04_ack_"],
         "codegen_groups": {"16": [["c08_crc_"], ["c09_"]]},
-        "quick": {"harnesses": [("16", "c09_crc_q*"), ("16", "c08_crc_*_q*")], "jobs": 14, "timeout": 1200},
-        "thorough": {"harnesses": [("16", "c09_*"), ("16", "c08_crc_*"), ("32", "c09_crc_t32_*")], "jobs": 8, "timeout": 3000},
+        "quick": {"harnesses": [("16", "c09_crc_q*"), ("16", "c08_crc_*_q*"), ("real", "c04_ack_q*")], "jobs": 14, "timeout": 1200},
+        "thorough": {"harnesses": [("16", "c09_*"), ("16", "c08_crc_*"), ("32", "c09_crc_t32_*"), ("real", "c04_ack*")], "jobs": 8, "timeout": 3000},
         "rule": ("case = (length triple, frame index, damage kind, variant); lengths pairwise distinct; hit frame enumerated over every frame of "
                  "the stream; non-trivial = the hit frame belongs to a multi-frame entry or is followed by other entries; counted from the symex log"),
         "samples": ["c09_crc_q_a_f2: lengths (5,20,1), frame 2 = Middle frame of the 3-frame entry: payload <- 9 symbolic bytes; checksum ^0x01 / ^0x80.. / zeroed / 0xff",
@@ -326,5 +332,27 @@ CHECKS = {
         "bounds": {"quick": {"buffer": "0,10,11,12,20,24 (entries); 0,5,11,12,13,16,24,25 (batches)"}, "thorough": {"buffer": "every length 0..=30"}},
         "outside": ["Directory::open / RollingReader (short, empty, stray, transposed files)", "allocation bounds", "MultiRecordLog read accessors", "arbitrary block content for the frame reader (symbolic cursors: > 28 GB, DESIGN B11)"],
         "assumptions": [CRC_ASSUMPTION, "S-utf8 stub (ASCII names)"],
+    },
+
+    "C18": {
+        "design_ref": "DESIGN.md section 4, C18",
+        "technique": "bounded model checking of the compiled Rust (Kani/CBMC): exhaustive operation pairs/triples on two queues against per-queue reference models",
+        "level_text": ("Bounded model checking of the name -> queue map of the log (real MemQueues; the std HashMap inside it is replaced, under the "
+                       "verification guard, by an association list because hashbrown cannot be executed symbolically): every pair -- thorough: every "
+                       "triple -- of operations {create, delete, append, truncate} addressed to two queues; after every operation each queue's "
+                       "existence, next position and records (positions, symbolic payload bytes) are compared with its own reference model, so an "
+                       "operation addressed to one queue that changes what the other returns is a counterexample. Only the live, in-memory half of the "
+                       "property: restarts, file deletion triggered by the other queue and crash recovery are MultiRecordLog glue and not claimed."),
+        "level_note": "trusted: kani-compiler, CBMC, CaDiCaL; the 60-line association-list stand-in for HashMap (src/lib.rs verif_map, guarded); operations are only issued to queues that exist (an Err(MissingQueue) value makes symex fork on a garbage reference, DESIGN B17)",
+        "filters": ["c18_"],
+        "quick": {"harnesses": [("real", "c18_iso*_q*")], "jobs": 14, "timeout": 900},
+        "thorough": {"harnesses": [("real", "c18_iso*")], "jobs": 16, "timeout": 2400},
+        "rule": "case = one script over [create a, delete a, append a, truncate a, create b, delete b, append b, truncate b] (base-8 digits); after each step both queues are observed; counted from the symex log",
+        "samples": ["c18_iso_q_002: scripts 16..23 of 8^2 (append a followed by each of the eight operations)", "c18_iso3_q_003: scripts 152..159 of 8^3"],
+        "functions": ["mem::queues::MemQueues::{create_queue,delete_queue,append_record,truncate,range,next_position,contains_queue,list_queues,size,ack_position}",
+                      "mem::queue::MemQueue::*", "verif_map::VecMap (stand-in)"],
+        "bounds": {"quick": {"queues": 2, "script_length": "2 (all 64), 3 (64 of 512)"}, "thorough": {"script_length": "3 (all 512)"}},
+        "outside": ["restarts / crash recovery / GC-triggered file deletion (MultiRecordLog)", "std HashMap itself", "more than two queues", "operations on missing queues (error values)"],
+        "assumptions": ["HashMap<String, MemQueue> replaced by an insertion-ordered association list with the same observable behaviour for the methods MemQueues uses"],
     },
 }
